@@ -149,7 +149,9 @@ func ParseOptions(rawData []byte) (Options, error) {
 			return nil, ErrLength
 		}
 
-		value := rawData[p : p+int(vlen)]
+		// the option owns its value: rawData belongs to the caller and may be reused
+		value := make([]byte, vlen)
+		copy(value, rawData[p:p+int(vlen)])
 		p += int(vlen)
 
 		ops[Tag(tag)] = Option{
